@@ -5,6 +5,7 @@ mod api;
 mod c10;
 mod c11;
 mod c12;
+mod c14;
 mod c15;
 mod c20;
 mod sched;
@@ -33,6 +34,9 @@ fn real_main() -> i32 {
         "c10" => c10::main(&env),
         "c11" => c11::main(&env),
         "c12" => c12::main(&env),
+        "c14" => c14::main(&env),
+        "c14-child" => c14::child_main(&args[1..]),
+        "miri-c14" => c14::miri_main(&args[1..]),
         "c15" => c15::main(&env),
         "c20" => c20::main(&env),
         "miri-c20" => c20::miri_main(&args[1..]),
@@ -51,6 +55,7 @@ fn real_main() -> i32 {
                 return 2;
             };
             match (doc["property"].as_str(), doc["engine"].as_str()) {
+                (Some("C14"), Some("processes")) => c14::replay(&doc),
                 (Some("C15"), _) => c15::replay(&doc),
                 (Some("C20"), Some("threads")) => c20::replay(&doc),
                 (Some("C10"), _) => c10::replay(&doc),
